@@ -975,11 +975,53 @@ def run_bnaf(ctx):
 
 
 # ----------------------------------------------------------------------------------------------------
+def run_large_dim(ctx):
+    """The autoregressive structure for an event dimension above 128 and 256 (rank arithmetic in a narrow integer type wraps there): the
+    Jacobian of a real MaskedAutoregressive layer (all-positive weights, so every permitted path is visible) is lower triangular with a
+    non-zero diagonal and, the hidden width being >= dim, no permitted dependency is missing; the condition reaches every output.  Oracle
+    only.  (Seeded change C09h cast the ranks to int8.)"""
+    s = _setup()
+    jnp, jax = s["jnp"], s["jax"]
+    import equinox as eqx
+    import jax.random as jr
+    from flowjax.bijections import Affine, MaskedAutoregressive
+    from flowjax.wrappers import unwrap
+
+    u = ctx.unit("large-dim", "MaskedAutoregressive(dim 130 / 260, width = dim, depth 1, all-positive weights): Jacobian pattern = strictly-lower + diagonal, all present; "
+                              "condition reaches every output (oracle only)")
+    for dim, cd in ((130, None), (130, 2)) if ctx.quick else ((130, None), (130, 2), (260, None), (200, 3)):
+        m = MaskedAutoregressive(jr.PRNGKey(0), transformer=Affine(), dim=dim, cond_dim=cd, nn_width=dim, nn_depth=1, nn_activation=jnp.tanh)
+        params, static = eqx.partition(m, eqx.is_inexact_array)
+        params = jax.tree_util.tree_map(lambda l: jnp.abs(l) * 0 + 0.01 + 0.02 * jnp.abs(jnp.sin(jnp.arange(l.size, dtype=float).reshape(l.shape))), params)
+        m = eqx.combine(params, static)
+        x = jnp.asarray(ctx.rng.normal(0, 1, dim))
+        c = None if cd is None else jnp.asarray(ctx.rng.normal(0, 1, cd))
+        J = np.asarray(jax.jacobian(lambda v: m.transform(v, c))(x))
+        u.count(("large-dim", dim, cd), nontrivial=True, tag=f"dim={dim}")
+        errs = []
+        up = np.argwhere(np.triu(J, 1) != 0)
+        if len(up):
+            errs.append(f"{len(up)} forbidden dependencies above the diagonal, e.g. d y[{up[0][0]}] / d x[{up[0][1]}] = {J[tuple(up[0])]!r}")
+        if np.any(np.diag(J) == 0):
+            errs.append(f"zero diagonal entry at {int(np.argmax(np.diag(J) == 0))}")
+        low = np.argwhere((np.tril(J, -1) == 0) & (np.tril(np.ones_like(J), -1) > 0))
+        if len(low):
+            errs.append(f"{len(low)} permitted dependencies missing although width >= dim, e.g. d y[{low[0][0]}] / d x[{low[0][1]}] = 0")
+        if cd is not None:
+            Jc = np.asarray(jax.jacobian(lambda cc: m.transform(x, cc))(c))
+            if np.any(np.all(Jc == 0, axis=1)):
+                errs.append(f"output {int(np.argmax(np.all(Jc == 0, axis=1)))} does not depend on the condition")
+        if errs:
+            ctx.violation(sig="maf:large-dim:pattern", what=f"MaskedAutoregressive(dim={dim}, cond_dim={cd}, nn_width={dim}): " + "; ".join(errs), case=dict(unit="large-dim", dim=dim, cond_dim=cd),
+                          found_input=True, unit=u.name, expected="lower-triangular Jacobian, complete below the diagonal", observed="; ".join(errs)[:300],
+                          broken="autoregressive structure for every size / C09_maf_autoregressive, C09_maf_complete")
+
+
 def run(ctx):
     import os
     import time
     only = os.environ.get("VERIF_C09_ONLY")  # development aid: run a subset of the units (names: mask_helpers,maf,coupling,bnaf)
-    for f in (run_mask_helpers, run_maf, run_coupling, run_bnaf):
+    for f in (run_mask_helpers, run_maf, run_coupling, run_bnaf, run_large_dim):
         if only and f.__name__[4:] not in only.split(","):
             ctx.notes.append(f"{f.__name__}: skipped (VERIF_C09_ONLY={only})")
             continue
@@ -1002,6 +1044,13 @@ def replay(ctx, rep):
     c = rep["case"]
     kind = c.get("kind")
     npars = NPARS
+    if c.get("unit") == "large-dim":
+        n0 = len(ctx.violations)
+        run_large_dim(ctx)
+        hits = [v for v in ctx.violations[n0:] if v["sig"] == rep.get("sig")]
+        for v in hits:
+            print("still failing:", v["what"][:300])
+        return not hits
     if "fn" in c:  # mask helper
         s = _setup()
         jnp, fm = s["jnp"], s["fmasks"]
